@@ -14,7 +14,7 @@ TECHNIQUE = ("bounded-exhaustive enumeration of operator-instance sequences buil
 RULE = ("every sequence of <=L top-level instances drawn (with repetition) from 12 templates over operator names "
         "{aten::A, aten::B} and activities {kern_x, kern_y, memcpy}; evaluated for operator in {aten::A, aten::B, "
         "absent name} x min_pattern_len in {0,1,2,3} x top_k in {1,5}; length-2 sequences also with the file order reversed; a variant wraps everything in profiler-step "
-        "annotations. non-trivial = at least two patterns, or an instance excluded by depth or by min_pattern_len")
+        "annotations, another analyses it as rank 1 of a two-rank job. non-trivial = at least two patterns, or an instance excluded by depth or by min_pattern_len")
 ASSUMPTIONS = [
     "operator names of the alphabet are not substrings of one another or of activity names, so 'matching' is exact",
     "activities with equal start time may appear in either order: for worlds containing the equal-start template "
@@ -58,6 +58,8 @@ def worlds(tier: str, stats: Dict[str, Any]) -> Iterator[Any]:
             yield dict(seq=list(seq), steps=False)
             if L == 1:
                 yield dict(seq=list(seq), steps=True)
+                stats["transitions"] += 1
+                yield dict(seq=list(seq), steps=False, as_rank1=True)
             if L == 2:
                 stats["transitions"] += 1
                 yield dict(seq=list(seq), steps=False, file_order="reversed")
@@ -133,7 +135,12 @@ def check(world) -> Dict[str, Any]:
     evs = build(world)
     rows = refmodel.parse_rows(evs)
     tie = TIE_TEMPLATE in world["seq"]
-    ta, d = htaenv.load_world({0: evs}, keep=True)
+    rank = 1 if world.get("as_rank1") else 0
+    if rank:
+        # the same trace as rank 1 of a two-rank job whose rank 0 looks different (and is what rank=0 would analyse)
+        ta, d = htaenv.load_world({0: build(dict(seq=[3, 9], steps=False)), 1: evs}, keep=True)
+    else:
+        ta, d = htaenv.load_world({0: evs}, keep=True)
     out_dir = os.path.join(d, "out")
     os.makedirs(out_dir)
     execs = 0
@@ -148,7 +155,7 @@ def check(world) -> Dict[str, Any]:
                 excluded |= sum(v[0] for v in exp.values()) < sum(1 for r in rows if r["name"] == op)
                 for k in (1, 5) if m else (5,):
                     execs += 1
-                    df = ta.get_frequent_cuda_kernel_sequences(op, out_dir, min_pattern_len=m, rank=0, top_k=k, visualize=False)
+                    df = ta.get_frequent_cuda_kernel_sequences(op, out_dir, min_pattern_len=m, rank=rank, top_k=k, visualize=False)
                     got: Dict[str, List[int]] = {}
                     counts = []
                     for _, r in df.iterrows():
